@@ -791,6 +791,7 @@ func (s *Server) Invoke(responseWriter http.ResponseWriter, invoke *interop.Invo
 	case err = <-releaseErrChan:
 		log.Debug("Invoke() release error")
 	case <-releaseSuccessChan:
+		verifAt("server.beforeFinalRelease")
 		s.Release()
 		log.Debug("Invoke() success")
 	}
